@@ -109,11 +109,12 @@ def build_cases(work, tier, rnd, gen_exprs=None):
     for s_ in st3:
         cases.append({'api': 'datetime', 'culture': s_['c']['culture'], 'text': s_['c']['text'], 'ref': s_['c']['ref'], 'src': 'generated:Gen_Mods'})
     extra_states = g3['distinct']
+    from . import dt_common as _du
     g4, st4 = flow.generate(work, 'Gen_UnitSeq', 'Gen_UnitSeq.cfg')
     st4.sort(key=lambda s_: json.dumps(s_['c'], sort_keys=True))
-    for s_ in (st4 if tier == 'thorough' else st4[::3]):
+    for s_ in (st4 if tier == 'thorough' else [x for k_, x in enumerate(st4) if k_ % 3 == 0 or x['c']['culture'] == 'zh-cn']):
         for api in ('currency', 'dimension'):
-            cases.append({'api': api, 'culture': s_['c']['culture'], 'text': s_['c']['text'], 'ref': None, 'src': 'generated:Gen_UnitSeq'})
+            cases.append({'api': api, 'culture': s_['c']['culture'], 'text': _du.unescape(s_['c']['text']), 'ref': None, 'src': 'generated:Gen_UnitSeq'})
     extra_states += g4['distinct']
     from . import dt_common as _d
     for mod, cfg, api_of in (('Gen_DateAbs', 'Gen_DateAbs_quick.cfg', lambda c: 'datetime'), ('Gen_ClockTime', 'Gen_ClockTime_quick.cfg', lambda c: 'datetime'),
@@ -186,6 +187,13 @@ def run(prop, tier, which):
             if prop == 'C12':
                 etype = '+'.join(sorted({e['type'] for e in ents}))
             key = {'api': c['api'], 'culture': c['culture'], 'text': c['text'], 'clause': clause.split(':')[0], 'etype': etype}
+            if prop == 'C12':
+                # the texts of the first two entities that share a character: identifies an overlap independently of
+                # the surrounding noise
+                es = sorted(ents, key=lambda e: (e['s'], e['e']))
+                pair = next(((a, b) for i, a in enumerate(es) for b in es[i + 1:] if b['s'] <= a['e']), None)
+                if pair:
+                    key['pair'] = '%s|%s' % (pair[0]['text'], pair[1]['text'])
             V.violation(key, {'case': c, 'observed': obs[eid], 'clause': clause})
         if res['nbad'] > len(res['bad']):
             V.note('%d failing events in total; first %d reported' % (res['nbad'], len(res['bad'])))
